@@ -58,6 +58,8 @@ func TestC03(t *testing.T) {
 					c.Count("remote_scenarios_"+remote, 1)
 				}
 
+				opts.ThirdPartyAtWatch = k%5 == 2 || k%8 == 7 // (the second term: together with the remote scenarios)
+
 				var o *lc.Outcome
 
 				synctest.Test(t, func(*testing.T) { o = lc.Run(rng, opts) })
@@ -82,6 +84,7 @@ func TestC03(t *testing.T) {
 				c.Count("window_third_party_destroy", cov.WinThirdPartyDestroy)
 				c.Count("window_pending_finalizer_at_destroy", cov.WinPendingAtDestroy)
 				c.Count("helper_conflict_retries", o.Retries)
+				c.Count("third_party_destroys_at_helper_watch", o.ThirdPartyDestroys)
 
 				if k < 2 {
 					c.Sample(map[string]any{"opts": opts, "calls": head(o.Calls, 12), "commits": len(o.Log)})
